@@ -170,12 +170,13 @@ Section Mueller.
   Definition mueller_comps (M : nat -> mmat) (m : nat) (ls : list (list K)) : list (list K) :=
     let idx := sidx (length ls) in
     map (fun j => tab m (fun p => dotk (nth j (M p) []) idx (col_at ls p))) idx.
-  Definition mueller_row (r : mrow) (m : nat) (ls : list (list K)) : list K :=
-    tab m (fun p => dotk r (sidx (length ls)) (col_at ls p)).
+  Definition mueller_row (R : nat -> mrow) (m : nat) (ls : list (list K)) : list K :=
+    tab m (fun p => dotk (R p) (sidx (length ls)) (col_at ls p)).
   (* 4x4 products, for the algebra of the matrices themselves *)
   Definition mcol (B : mmat) (j : nat) : list K := map (fun r => nth j r k0) B.
   Definition dot4 (u v : list K) : K := fold_right (fun p acc => fst p * snd p + acc) k0 (combine u v).
-  Definition mmul (X Y : mmat) : mmat := map (fun r => map (fun j => dot4 r (mcol Y j)) [0; 1; 2; 3]) X.
+  Definition rowmul (r : mrow) (Y : mmat) : mrow := map (fun j => dot4 r (mcol Y j)) [0; 1; 2; 3].
+  Definition mmul (X Y : mmat) : mmat := map (fun r => rowmul r Y) X.
   Definition mtrans (X : mmat) : mmat := map (mcol X) [0; 1; 2; 3].
 
   (* ---------- operators ---------- *)
@@ -297,11 +298,17 @@ Section Mueller.
     match a with None => [PPol] | Some a => [PPol; PRot i a] end.
   Definition rot_create (i : N) (a : aarr) : list pop := [PRot i a].
 
-  (* well-formed operands for component shape sh: the angles broadcast to sh *)
+  (* well-formed operands for component shape sh: the angles broadcast to sh; and (needed only for
+     R.T R = I) they are angles: cos^2 + sin^2 = 1 *)
   Definition wf_arr (sh : list nat) (a : aarr) : bool :=
     bcable sh (ashape a) && (length (adata a) =? size (ashape a)).
-  Definition wf_op (sh : list nat) (o : pop) : bool :=
-    match o with PRot _ a | PRotT _ a => wf_arr sh a | _ => true end.
+  Definition unit_ang (a : A) : Prop := c a * c a + s a * s a = k1.
+  Definition good_arr (sh : list nat) (a : aarr) : Prop := wf_arr sh a = true /\ Forall unit_ang (adata a).
+  Definition good_op (sh : list nat) (o : pop) : Prop :=
+    match o with PRot _ a | PRotT _ a => good_arr sh a | _ => True end.
+  (* each result defined on the left is the result on the right *)
+  Definition chain_le (sh : list nat) (l l' : list pop) : Prop :=
+    forall x y, chain_mv sh l x = Some y -> chain_mv sh l' x = Some y.
 End Mueller.
 
 (* ---------- the executable exact instance ----------
